@@ -22,7 +22,7 @@ def plan(tier):
         p.add(MOD, H(fn, {"reply": "BulkString", "payload": "%d arbitrary bytes" % l}, "reply_bulk"))
     gen.append("vk_proof! {\n" + ATTR % 12 + "fn c22_integer() { reply_integer(); }\n}\n")
     p.add(MOD, H("c22_integer", {"reply": "Integer", "value": "|i| < 100000"}, "reply_integer"))
-    for l in ((1,) if tier == "quick" else (1, 2)):
+    for l in (() if tier == "quick" else (1,)):
         fn = "c22_array_len%d" % l
         gen.append("vk_proof! {\n" + ATTR % (2 * l + 24) + "fn %s() { reply_array::<%d>(); }\n}\n" % (fn, l))
         p.add(MOD, H(fn, {"reply": "Array[Error, SimpleString, Null, BulkString(None)]", "text": "%d arbitrary ASCII characters each" % l}, "reply_array"))
